@@ -54,6 +54,9 @@ enum Extra {
     Stacked,
     /// the definition comes out of a `macro_rules!` macro; the field type `u8` arrives as an `ident` fragment
     ViaMacro,
+    /// a user trait with by-value methods named like the methods generated code might call in method syntax
+    /// (`finish`, `field`, `clone`, `eq`, ..) is in scope at the definition (the twin sits in a scope without it)
+    HostileMethods,
 }
 
 /// bodies with more fields than this get the sparse value set
@@ -259,7 +262,7 @@ fn gen_options(ch: &mut Ch, thorough: bool) -> Option<Case> {
     if naming == Naming::Prelude && gopt != GOpt::None {
         return None;
     }
-    let extra = *ch.of(&[Extra::None, Extra::ReprC, Extra::NonExhaustive, Extra::Stacked, Extra::ViaMacro]);
+    let extra = *ch.of(&[Extra::None, Extra::ReprC, Extra::NonExhaustive, Extra::Stacked, Extra::ViaMacro, Extra::HostileMethods]);
     if extra == Extra::ViaMacro && (gopt != GOpt::None || naming != Naming::Neutral) {
         return None;
     }
@@ -371,7 +374,7 @@ fn item_and_values(c: &Case, module: &str) -> (String, Vec<String>) {
         }
     }
     let extra = match c.extra {
-        Extra::None | Extra::Stacked | Extra::ViaMacro => "",
+        Extra::None | Extra::Stacked | Extra::ViaMacro | Extra::HostileMethods => "",
         Extra::ReprC => "#[repr(C)] ",
         Extra::NonExhaustive => "#[non_exhaustive] ",
     };
@@ -430,6 +433,8 @@ fn build(c: &Case) -> Built {
     let st_mod = format!("pub mod st {{\n{}\n{}\n}}\n", std_derive(&app), item);
     let dx_mod = if c.extra == Extra::ViaMacro {
         format!("pub mod dx {{ use derive_ex::{{derive_ex, Ex}};\nmacro_rules! mk_item {{ ($t:ident) => {{\n{head}\n{}\n{}\n}} }}\nmk_item!(u8);\n}}\n", std_derive(&std_rest), crate::c10::replace_word(&item, "u8", "$t"))
+    } else if c.extra == Extra::HostileMethods {
+        format!("{}pub mod dx {{ use derive_ex::{{derive_ex, Ex}};\nuse super::hostile::Hostile as _;\n{head}\n{}\n{}\n}}\n", crate::c13::HOSTILE, std_derive(&std_rest), item)
     } else {
         format!("pub mod dx {{ use derive_ex::{{derive_ex, Ex}};\n{head}\n{}\n{}\n}}\n", std_derive(&std_rest), item)
     };
@@ -484,7 +489,7 @@ fn build(c: &Case) -> Built {
     }
     s.push_str(&format!("    out.push_str(&format!(\"n={{}};\", ds.len()));\n    out\n}}\n"));
     exp.push_str(&format!("n={};", vals_dx.len()));
-    Built { twin_only, full: s, expected: exp, text: format!("{} derive_ex({}) + derive({}) {}", c.entry.name(), dx_list.join(","), std_rest.join(","), item) }
+    Built { twin_only, full: s, expected: exp, text: format!("{} derive_ex({}) + derive({}) {}{}", c.entry.name(), dx_list.join(","), std_rest.join(","), item, match c.extra { Extra::Stacked => " [two stacked lists]", Extra::ViaMacro => " [out of a macro_rules! macro]", Extra::HostileMethods => " [by-value trait methods finish / field / clone / eq / .. in scope]", _ => "" }) }
 }
 
 pub fn run(ctx: &Ctx, rep: &mut Report) {
